@@ -13,7 +13,29 @@ def make_tracing_compiler():
         def __init__(self, func, env, callback):
             super().__init__(func, env)
             self.traced = []
+            self.def_sites = []
             self.foreign_vals['__verif_trace'] = lambda idx, v: callback(self.traced[idx], v)
+            on_def = getattr(callback, 'on_def', None)
+            self.foreign_vals['__verif_def'] = (lambda idx: on_def(self.def_sites[idx])) if on_def else (lambda idx: None)
+
+        def _def_event(self, stmt):
+            """python statement reporting that the defining FPy statement `stmt` has just bound its names"""
+            idx = len(self.def_sites)
+            self.def_sites.append(stmt)
+            attrs = self._location_to_attributes(stmt.loc)
+            return pyast.Expr(value=pyast.Call(func=pyast.Name(id='__verif_def', ctx=pyast.Load(), **attrs), args=[pyast.Constant(value=idx, kind=None, **attrs)], keywords=[], **attrs), **attrs)
+
+        def _visit_block(self, block, ctx):
+            from fpy2.ast import fpyast as A
+            out = []
+            for stmt in block.stmts:
+                node = self._visit_statement(stmt, ctx)
+                if isinstance(stmt, A.ForStmt) and isinstance(node, pyast.For):
+                    node.body.insert(0, self._def_event(stmt))      # the target is bound at the start of every iteration
+                out.append(node)
+                if isinstance(stmt, (A.Assign, A.IndexedAssign)):
+                    out.append(self._def_event(stmt))
+            return out
 
         def _visit_expr(self, e, ctx):
             node = super()._visit_expr(e, ctx)
